@@ -731,15 +731,15 @@ theorem step_mmap2 (s : St) (pid tid addr len pgoff : Nat) (exec : Bool) (path :
     step s (.mmap2 pid tid addr len pgoff exec path t) =
       let s1 := if s.cur = s.cfg.ref || path.isEmpty then s
                 else (getThread (getByPid s pid).1 (getByPid s pid).2 tid).1
-      if !exec then s1 else
+      if !exec then s1 else if specialPath path then s1 else
         putProc (getByPid s1 pid).1 { (getByPid s1 pid).2 with
-          mapq := (getByPid s1 pid).2.mapq ++ [(t, { start := addr, end_ := addr + len, rel := pgoff, lib := path })] } :=
+          mapq := (getByPid s1 pid).2.mapq ++ mapOps (getByPid s1 pid).1.cfg addr len pgoff path t } :=
   rfl
 
 theorem lstep_mmap2 (l : Life.S) (pid tid addr len pgoff : Nat) (exec : Bool) (path : String) (t : Nat) :
     Life.step l (.mmap2 pid tid addr len pgoff exec path t) =
       let l1 := if l.cur = l.ref || path.isEmpty then l else Life.ensureThread l pid tid
-      if exec then (Life.ensureProc l1 pid).1 else l1 := rfl
+      if exec && !specialPath path then (Life.ensureProc l1 pid).1 else l1 := rfl
 
 theorem sim_mmap2 {s : St} {l : Life.S} (h : Sim s l) (pid tid addr len pgoff : Nat) (exec : Bool) (path : String)
     (t : Nat) :
@@ -760,9 +760,12 @@ theorem sim_mmap2 {s : St} {l : Life.S} (h : Sim s l) (pid tid addr len pgoff : 
   cases exec with
   | false => exact h1
   | true =>
-    simp only [Bool.not_true, Bool.false_eq_true, if_false, if_true]
-    obtain ⟨h2, hb2, _⟩ := h1.getByPid pid
-    exact h2.touch hb2 (PEq.of_same rfl rfl rfl rfl rfl)
+    cases hsp : specialPath path with
+    | true => simpa [hsp] using h1
+    | false =>
+      simp only [hsp, Bool.not_true, Bool.not_false, Bool.and_self, Bool.false_eq_true, if_false, if_true]
+      obtain ⟨h2, hb2, _⟩ := h1.getByPid pid
+      exact h2.touch hb2 (PEq.of_same rfl rfl rfl rfl rfl)
 
 /-! ### One record: FORK -/
 
